@@ -210,6 +210,7 @@ def doClean (o : Opts) (w : World) (g : Graph) (fuel root : Nat) : Option Result
 /-! ### the prune decision of the builder (minimal local model) -/
 
 inductive PrepOp (σ : Type)
+  | invalidate
   | unlink
   | emptyDir
   | resetState (d : σ)
@@ -220,12 +221,13 @@ inductive PrepOp (σ : Type)
 /-- `_cookBuildStep` from "get directory into shape" to the decision whether the script runs.
 `created`: `_constructDir` had to create the directory; `present`: `os.path.exists`;
 `old`/`new`: stored and current build digest; `storedInputs`/`inputs`: `getInputHashes` and the
-current input hashes (`resetWorkspaceState` deletes the stored ones). -/
+current input hashes (`resetWorkspaceState` deletes the stored ones).  `invalidate` is the
+`resetWorkspaceState(path, None)` that precedes every prune (an interrupted prune is repeated). -/
 def cookBuild [DecidableEq σ] [DecidableEq ι] (created present force : Bool) (old : Option σ) (new : σ)
     (storedInputs : Option ι) (inputs : ι) : List (PrepOp σ) :=
   let reset := created || decide (old ≠ some new)
   let prep := if reset then
-      (if !created && present then [PrepOp.emptyDir] else []) ++ [PrepOp.resetState new]
+      (if !created && present then [PrepOp.invalidate, PrepOp.emptyDir] else []) ++ [PrepOp.resetState new]
     else []
   let stored := if reset then none else storedInputs
   prep ++ [if !force && decide (stored = some inputs) then PrepOp.skip else PrepOp.run]
@@ -234,7 +236,7 @@ def cookBuild [DecidableEq σ] [DecidableEq ι] (created present force : Bool) (
 shared package -/
 def preparePackage [DecidableEq σ] (there fileOrLink : Bool) (old : Option σ) (new : σ) : List (PrepOp σ) :=
   let prune := there && decide (old ≠ some new)
-  (if prune then [if fileOrLink then PrepOp.unlink else PrepOp.emptyDir] else [])
+  (if prune then [PrepOp.invalidate, if fileOrLink then PrepOp.unlink else PrepOp.emptyDir] else [])
   ++ (if prune || !there then [PrepOp.resetState new] else [])
 
 end BobClean
